@@ -374,11 +374,15 @@ LEVEL_TEXT = ("PARTIAL: specification-level run-time monitoring of the complete 
               "zero-length status and never STALLed; every other class request and every vendor/reserved request is STALLed at every answering "
               "opportunity' -- on the unchanged tree this obligation FAILS with a one-cycle counterexample (see below), with the patch it is a theorem; the specification's request classification reads as the property text says "
               "(C57_spec_*); the observer's N packing is injective (C57_pairing_injective, C57_observer_packing), so the oracle evaluates the typed "
-              "specification. RESULT ON THE UNCHANGED TREE: the specification is VIOLATED in two ways. (a) a class / vendor / reserved request with an "
-              "OUT data stage is not STALLed: its data packet gets no handshake at all (complete device: findings/C57-out-data-stage-not-stalled.json; handler level: "
-              "findings/C57-out-data-stage-not-stalled-handlers.json; candidate patch findings/C57-out-data-stage-not-stalled.diff). (b) after a data packet with a corrupted CRC16 the next SETUP is not ACKed -- the defect already recorded for C06 "
-              "(findings/C57-setup-lost-after-corrupt-data.json; fix: findings/C06-deserializer-crc-mismatch-hang.diff). With both patches applied "
-              "every trace is accepted (findings/C57-with-patches.evidence.json).")
+              "specification. RESULT ON /repo (HEAD b4e8e16): the specification is VIOLATED. (a) NEW: a class / vendor / reserved request with an OUT "
+              "data stage is not STALLed: its data packet gets no handshake at all (complete device: findings/C57-out-data-stage-not-stalled.json; "
+              "handler level, one cycle: findings/C57-out-data-stage-not-stalled-handlers.json; candidate patch "
+              "findings/C57-out-data-stage-not-stalled.diff). A defect already recorded for C13 also surfaces at device level: (c) with a small packet "
+              "size and a slow consumer an OUT packet that overflows the rx FIFO is discarded yet ACKed, its bytes are lost "
+              "(findings/C57-acked-out-packet-dropped.json; fix findings/C13-ack-after-discard-and-first-marking.diff). (An earlier tree also failed "
+              "with (b) the SETUP after a corrupted data packet not being ACKed -- C06, fixed in /repo by d048abf; "
+              "findings/C57-setup-lost-after-corrupt-data.json.) With the C57 and C13 patches applied every trace of both tiers is accepted and ob_hmux "
+              "is a theorem (findings/C57-with-patches*.evidence.json).")
 LEVEL_NOTE = ("No theorem about the complete device: 1900+ cells with packet memories are out of reach of certified reachability, and the composition "
               "of the component theorems (C01-C14) across the half-duplex turnaround is not proved -- C57 rests on the legal-host hypothesis and on the "
               "host-script generator's coverage. Stream properties are safety only (order / no loss in the middle / no duplication); eventual delivery "
